@@ -152,7 +152,7 @@ theorem protect_unprotect (k : Keys) (hdr payload : Bytes) (pn : Nat) (largest :
     rw [if_neg (by simp; omega)]
   refine ⟨_, hprot, by rw [applyHP_length]; simp, ?_⟩
   generalize hm : k.hp (sample (hdr ++ ct) off) = m
-  unfold unprotect
+  unfold unprotect unprotectCore
   rw [if_neg (by rw [applyHP_length]; simp; omega)]
   simp only
   rw [sample_applyHP k.long m off n _ ho hr.2 hrawlen, hm]
@@ -174,7 +174,6 @@ theorem protect_unprotect (k : Keys) (hdr payload : Bytes) (pn : Nat) (largest :
   rw [hdec]
   simp only [Int.toNat_natCast]
   rw [← hct, haead, hres]
-  rfl
 
 /-- `only_sealed_opens`, general form -/
 theorem unprotect_is_protect (k : Keys) (Sealed : Bytes → Bytes → Bytes → Prop)
@@ -185,21 +184,26 @@ theorem unprotect_is_protect (k : Keys) (Sealed : Bytes → Bytes → Bytes → 
   unfold unprotect at h
   split at h
   · cases h
-  rename_i hsz
-  simp only at h
-  generalize hm : k.hp (sample data off) = m at h
-  generalize hf : data.headD 0 ^^^ (m 0 &&& firstMask k.long) = first at h
-  have hr := pnLenOf_range first
-  generalize hn : pnLenOf first = n at h hr
-  have hlen : off + n ≤ data.length := by omega
-  generalize hpnv : decodePN n largest ↑(fromBE (List.take n (List.drop off (applyHP k.long m off n data)))) = pnv at h
-  split at h
-  · cases h
-  rename_i msg hdec
-  split at h
-  · rename_i hres
+  · rename_i o' hcore
     simp only [Except.ok.injEq] at h
     subst h
+    rw [unprotectCore] at hcore
+    split at hcore
+    · cases hcore
+    rename_i hsz
+    simp only at hcore
+    generalize hm : k.hp (sample data off) = m at hcore
+    generalize hf : data.headD 0 ^^^ (m 0 &&& firstMask k.long) = first at hcore
+    have hr := pnLenOf_range first
+    generalize hn : pnLenOf first = n at hcore hr
+    have hlen : off + n ≤ data.length := by omega
+    generalize hpnv : decodePN n largest ↑(fromBE (List.take n (List.drop off (applyHP k.long m off n data)))) = pnv at hcore
+    split at hcore
+    · cases hcore
+    rename_i msg hdec
+    simp only [Except.ok.injEq, Prod.mk.injEq] at hcore
+    obtain ⟨ho', _⟩ := hcore
+    subst ho'
     simp only
     obtain ⟨hS, hc⟩ := hideal _ _ _ _ hdec
     refine ⟨hS, ?_⟩
